@@ -7,6 +7,6 @@ def CT(name, harness, entry, functions, **kw):
     return U("C06." + name, ["C06"], "harness/C06/" + harness, entry, branch=True, functions=functions, **kw)
 UNITS = [
     CT("util", "util.c", "h_ct_util", ["secp256k1_memczero", "secp256k1_is_zero_array", "secp256k1_int_cmov"],
-       unwind=194, min_obl=3, closed_by="public len <= 192 unwound (all call sites use constants <= 162)",
+       unwind=194, min_obl=100, defs=["CT_MAX=256"], closed_by="public len <= 192 unwound (all call sites use constants <= 162)",
        note="secret: flag, buffer contents; public: len"),
 ]
